@@ -244,6 +244,35 @@ def check_constructor_forwarding(rep, repo):
            "the KNN subgraph must be built from the caller's arrays and index array")
 
 
+def _row_fill_view(w):
+    """`D[i] = [E(y) for y in xs]` fills row i cell by cell: the view shows it as `for j, y in enumerate(xs): D[i][j] = E(y)`
+    (the comprehension's loop becomes an ordinary inner loop of the store)."""
+    import dataclasses
+    import types
+    from ..ir import plug_back
+    events, loops = [], dict(w.loops)
+    changed = False
+    for e in w.events:
+        v = e.value
+        if e.kind == "store" and not e.aug and e.target[0] == "idx" and e.target[1][0] == "alloc" and e.target[2][0] != "tuple" \
+                and v is not None and v[0] == "listcomp" and len(v[2]) == 1 and not v[2][0][2] and v[2][0][1] in loops:
+            dom, lid, _ = v[2][0]
+            if dom[0] == "call" and dom[1] == ("builtin", "enumerate"):
+                events.append(e)
+                continue
+            en = ("call", ("builtin", "enumerate"), (dom,), ())
+            j = ("iterproj", en, lid, (0,))
+            elt = plug_back(v[1], ("iter", dom, lid), ("idx", dom, j))
+            loops[lid] = dataclasses.replace(loops[lid], domain=en, kind="for", loops=e.loops)
+            events.append(dataclasses.replace(e, target=("idx", e.target, j), value=elt, loops=e.loops + (lid,)))
+            changed = True
+        else:
+            events.append(e)
+    if not changed:
+        return w
+    return types.SimpleNamespace(events=events, loops=loops, entry=w.entry)
+
+
 def _nested_index(events):
     """D[i, j] on a freshly allocated 2-D array is D[i][j]."""
     import dataclasses
@@ -258,7 +287,7 @@ def check_builders(chk, rep, repo):
     from ..common import registry_accessor
     acc = registry_accessor(repo)
     same = _private_same_module(fi)
-    w = Walker(repo, fi, inline=lambda f: same(f) or acc(f))
+    w = _row_fill_view(Walker(repo, fi, inline=lambda f: same(f) or acc(f)))
     st = [e for e in _nested_index(w.events) if e.kind == "store" and e.target[0] == "idx" and e.target[1][0] == "idx"
           and e.target[1][1][0] == "alloc"]
     ok = False
@@ -304,7 +333,7 @@ def check_builders(chk, rep, repo):
                and sv[0].args[:1] == (("param", "output"),), "np.savetxt(output, <the filled matrix>) expected")
     rep.fn("BUILD-file", fi, "pre_compute_distance fills [i][j] with the metric of rows (i, j)", ok, detail)
     # get_distances
-    w = model_walk(repo, "OPF", "get_distances")
+    w = _row_fill_view(model_walk(repo, "OPF", "get_distances"))
     fi = w.entry
     G = ("attr", ("self",), "subgraph")
     st = [e for e in _nested_index(w.events) if e.kind == "store" and e.target[0] == "idx" and e.target[1][0] == "idx"
@@ -369,6 +398,16 @@ def ext_term(param):
 
 def resolve(t, ext_t, ext):
     """Value of a term that selects on the file extension, for one concrete extension."""
+    # a lookup table keyed by the extension: TABLE[ext] / TABLE.get(ext, default)
+    if t[0] == "idx" and t[1][0] == "dict" and t[2] == ext_t:
+        hit = [v for k, v in t[1][1] if k == ("const", ext)]
+        return hit[0] if len(hit) == 1 else None
+    if t[0] == "call" and t[1][0] == "attr" and t[1][2] == "get" and t[1][1][0] == "dict" and t[2][:1] == (ext_t,) \
+            and len(t[2]) <= 2 and not t[3]:
+        hit = [v for k, v in t[1][1][1] if k == ("const", ext)]
+        if len(hit) == 1:
+            return hit[0]
+        return t[2][1] if len(t[2]) == 2 and not hit else (("const", None) if not hit else None)
     while t[0] == "sel":
         c = t[1]
         if c[0] == "cmp" and c[1] in ("==", "!=") and ext_t in (c[2], c[3]):
